@@ -181,9 +181,9 @@ Definition setup_step (rec : setup_fn) (st : state) (ds : list decision)
         | Some p =>
             let sprod := find_setup_product w (s_env st) name in
             if same_product p sprod && negb (Nat.eqb depth 0) then RDone true st ds1 else
-            (* unsetupSetupProduct: unsetup whatever version is set up, at depth 0 *)
+            (* unsetupSetupProduct: unsetup whatever version is set up, at the same depth *)
             let r0 := match sprod with
-                      | Some _ => rec st ds1 name false 0 just
+                      | Some _ => rec st ds1 name false depth just
                       | None => RDone true st ds1
                       end in
             match r0 with
